@@ -12,7 +12,6 @@ and the way the task ends are (i) judged by the property text (oracle) and
 await points included."""
 import asyncio
 import contextlib
-import errno
 import os
 import selectors
 import struct
@@ -265,7 +264,7 @@ class Env:
         def lookup(fd, key, fmt):
             env.log(f"lookup{struct.unpack('<I', key)[0]}")
             if key not in env.table:
-                raise OSError(errno.ENOENT, "no such entry")
+                raise KeyError          # what ebpfcat.bpf.lookup_elem makes of ENOENT
             return struct.unpack(fmt, env.table[key])
 
         def update(fd, key, value, *a):
@@ -275,7 +274,7 @@ class Env:
         def delete(fd, key):
             env.log(f"prog[{struct.unpack('<I', key)[0]}]=del")
             if key not in env.table:
-                raise OSError(errno.ENOENT, "no such entry")
+                raise KeyError          # what ebpfcat.bpf.delete_elem makes of ENOENT
             del env.table[key]
 
         def load(sg, *a, **kw):
